@@ -43,7 +43,7 @@ REQUIRED = {
 
 
 def run(ctx):
-    for fn in (r1_shortcut, r2_flag_table, r3_symmetry, r4_regex_facts, r6_verdict_sources, r7_regex_call_shape, r8_wildcard_bounds):
+    for fn in (r1_shortcut, r2_flag_table, r3_symmetry, r4_regex_facts, r6_verdict_sources, r7_regex_call_shape, r8_wildcard_bounds, r9_quote_removal):
         ctx.rep.rule(fn, ctx)
 
 
@@ -157,6 +157,66 @@ def r8_wildcard_bounds(ctx):
     from . import c06
     from .common import run_as
     run_as(ctx, c06.r3_bounds_reach_scan, 'C06.R3', 'C05.R8')
+
+
+def r9_quote_removal(ctx):
+    """NORMALIZE_REPR makes *surrounding quotes* ignorable: the text is shortened by its first and last character only when both are the
+    same quote character, and only when that makes the texts match"""
+    rep = ctx.rep
+    f = ctx.func(NORM)
+    helpers = [h for h in ctx.prog.funcs.values() if h.parent is f and any(isinstance(x, ast.Subscript) and isinstance(x.slice, ast.Slice) for x in ast.walk(h.node))
+               and '_check_match' in ast.unparse(h.node)]
+    need(len(helpers) == 1, 'C05.R9: the quote-removal helper inside normalize() was not recognised')
+    h = helpers[0]
+    g = ctx.cfg(h)
+    rd = ctx.rd(h)
+    dom = ctx.dom(g, g.entry)
+    a = h.node.args.args[0].arg
+
+    def is_strip1(e):
+        return isinstance(e, ast.Subscript) and is_name(e.value, a) and isinstance(e.slice, ast.Slice) and isinstance(e.slice.lower, ast.Constant) and e.slice.lower.value == 1 and \
+            isinstance(e.slice.upper, ast.UnaryOp) and isinstance(e.slice.upper.op, ast.USub) and isinstance(e.slice.upper.operand, ast.Constant) and e.slice.upper.operand.value == 1 and e.slice.step is None
+    rets = [n for n in g.nodes if n.kind == 'stmt' and isinstance(n.ast, ast.Return) and not n.dup]
+    short = [n for n in rets if n.ast.value is not None and not is_name(n.ast.value, a)]
+    rep.floor('C05.R9', 'returns of a shortened text', len(short), 1)
+
+    def one_char_denotation(node, e):
+        """set of characters the expression may denote when used as a startswith / endswith argument, or None"""
+        if isinstance(e, ast.Constant) and isinstance(e.value, str):
+            return (frozenset([e.value]), 'const')
+        if isinstance(e, ast.Name):
+            ds = rd.at(node, e.id)
+            if len(ds) == 1 and ds[0].kind == 'iter' and isinstance(ds[0].value, (ast.List, ast.Tuple)) and all(isinstance(x, ast.Constant) and isinstance(x.value, str) for x in ds[0].value.elts):
+                return (frozenset(x.value for x in ds[0].value.elts), ('loopvar', e.id))
+            if len(ds) == 1 and ds[0].kind == 'assign' and isinstance(ds[0].value, (ast.Tuple, ast.List)):
+                return (frozenset(x.value for x in ds[0].value.elts if isinstance(x, ast.Constant)), 'tuple')
+        if isinstance(e, (ast.Tuple, ast.List)):
+            return (frozenset(x.value for x in e.elts if isinstance(x, ast.Constant)), 'tuple')
+        return None
+    for rn in short:
+        facts = graph.guard_facts(dom, rn)
+        st = [fa for fa in facts if fa.polarity is True and isinstance(fa.expr, ast.Call) and isinstance(fa.expr.func, ast.Attribute) and fa.expr.func.attr == 'startswith' and is_name(fa.expr.func.value, a)]
+        en = [fa for fa in facts if fa.polarity is True and isinstance(fa.expr, ast.Call) and isinstance(fa.expr.func, ast.Attribute) and fa.expr.func.attr == 'endswith' and is_name(fa.expr.func.value, a)]
+        ok_shape = is_strip1(rn.ast.value)
+        same = False
+        why = 'the removal is not guarded by a.startswith(q) and a.endswith(q)'
+        if st and en:
+            ds_ = one_char_denotation(st[0].origin.attrs['test'], st[0].expr.args[0])
+            de_ = one_char_denotation(en[0].origin.attrs['test'], en[0].expr.args[0])
+            if ds_ is None or de_ is None:
+                raise AnalysisError('C05.R9: quote tests with unrecognised arguments')
+            if ds_[1] == 'tuple' or de_[1] == 'tuple':
+                why = 'the first and the last character are each tested against the whole set of quotes %s: a text that starts with one kind of quote and ends with the other loses both (the texts differ in non-whitespace characters and still match)' % sorted(ds_[0] | de_[0])
+            elif ds_ == de_ and all(len(c) == 1 for c in ds_[0]) and ds_[0] <= {'"', "'"}:
+                same = True
+            else:
+                why = 'start and end are tested against different characters (%s / %s)' % (sorted(ds_[0]), sorted(de_[0]))
+        helps = any(fa.polarity is True and isinstance(fa.expr, ast.Call) and _resolves(ctx, h, fa.expr, CM) and fa.expr.args and is_strip1(fa.expr.args[0]) for fa in facts)
+        needed = any(fa.polarity is False and isinstance(fa.expr, ast.Call) and _resolves(ctx, h, fa.expr, CM) and fa.expr.args and is_name(fa.expr.args[0], a) for fa in facts)
+        rep.ob('C05.R9', ctx.loc(h, rn.ast), ctx.src(rn.ast) + ' | quotes', ok_shape and same,
+               'one leading and one trailing character are dropped only when both are the same quote character' if ok_shape and same else (why if ok_shape else 'the shortened text is not a[1:-1]'), anchor=NORM)
+        rep.ob('C05.R9', ctx.loc(h, rn.ast), ctx.src(rn.ast) + ' | only if it helps', helps and needed,
+               'quotes are removed only when the texts do not match with them and do match without them' if helps and needed else 'quote removal is not conditioned on making the texts match', anchor=NORM)
 
 
 def r7_regex_call_shape(ctx):
@@ -584,6 +644,7 @@ from ..selftest import fire, silent      # noqa: E402
 CK = 'xdoctest/checker.py'
 US = 'xdoctest/utils/util_str.py'
 VARIANTS = [
+    fire('mixed-quotes-removed', 'C05.R9', (CK, "                for q in ['\"', \"'\"]:\n                    if a.startswith(q) and a.endswith(q):\n                        if _check_match(a[1:-1], b, runstate):\n                            return a[1:-1]\n", "                quotes = ('\"', \"'\")\n                if a.startswith(quotes) and a.endswith(quotes):\n                    if _check_match(a[1:-1], b, runstate):\n                        return a[1:-1]\n")),
     fire('K2-trailing-ws-spaces-only', 'C05.R4', (CK, 'TRAILING_WS = re.compile(r"[ \\t]*$", re.UNICODE | re.MULTILINE)', 'TRAILING_WS = re.compile(r"[ ]*$", re.UNICODE | re.MULTILINE)')),
     fire('trailing-ws-not-multiline', 'C05.R4', (CK, 'TRAILING_WS = re.compile(r"[ \\t]*$", re.UNICODE | re.MULTILINE)', 'TRAILING_WS = re.compile(r"[ \\t]*$", re.UNICODE)')),
     fire('K3-prefix-guard-dropped', 'C05.R4', (CK, 'unicode_literal_re = re.compile(r"(\\W|^)[uU]([rR]?[\\\'\\"])", re.UNICODE)', 'unicode_literal_re = re.compile(r"()[uU]([rR]?[\\\'\\"])", re.UNICODE)')),
